@@ -778,7 +778,11 @@ func runC37Case(ctx context.Context, r *vkit.Run, base *vkit.Rand, c c37Case) {
 		ds := byField[f]
 		ww := w
 		ww.Diffs = firstN(ds, 8)
-		r.Violation("migrated-object-differs:"+f, fmt.Sprintf("%d object(s) differ in %s after migration %s>%s (%s), e.g. %s", len(ds), f, c.Src, c.Dst, c.Mode, ds[0]), ww)
+		sig := "migrated-object-differs:" + f
+		if source.kind != "plain" {
+			sig += ":" + source.kind + "-source"
+		}
+		r.Violation(sig, fmt.Sprintf("%d object(s) differ in %s after migration %s>%s (%s), e.g. %s", len(ds), f, c.Src, c.Dst, c.Mode, ds[0]), ww)
 	}
 	// second opinion: the shared snapshot differ on current objects (ETag and the
 	// fields already reported above excluded)
